@@ -52,6 +52,7 @@ func expectedLines(chunks []string) []string {
 }
 
 func execWriter(c WriterCase) (v ev.Verdict) {
+	var shared [64]byte
 	rec := &projsim.Recorder{}
 	l, _ := label.Parse("//:w")
 	w := dawn.VerifNewLineWriter(l, rec)
@@ -59,7 +60,12 @@ func execWriter(c WriterCase) (v ev.Verdict) {
 	for r, chunks := range c.Rounds {
 		start := len(rec.Events)
 		for _, ch := range chunks {
-			n, err := w.Write([]byte(ch))
+			// the caller owns the buffer: it is reused and overwritten after every Write, as io.Copy does
+			n0 := copy(shared[:], ch)
+			n, err := w.Write(shared[:n0])
+			for i := 0; i < n0; i++ {
+				shared[i] = '#'
+			}
 			if err != nil || n != len(ch) {
 				return ev.Failf("short-write", "Write(%q) = %d, %v", ch, n, err)
 			}
